@@ -257,7 +257,11 @@ def st_ops(max_ops):
     # success=False next to parameters of the earlier pass and counts as unfitted
     fitfail = st.fixed_dictionaries({"op": st.just("fit"), "c": c, "model": st.just(0), "pre": st.just(0),
                                      "wcp": st.just(0), "seg": st.just(0), "fail": st.sampled_from(["relcp", "abs"])})
-    op = st.one_of(fit0, fit0, fit, fit, fit, rate, rate, rate, prep, mp, fitfail)
+    # a preprocessing request that is rejected (missing prerequisite / unknown step): the curve is then neither
+    # preprocessed, fitted nor rated
+    prebad = st.fixed_dictionaries({"op": st.just("pre_bad"), "c": c, "bad": st.sampled_from([
+        ["correct_tip_offset"], ["compute_tip_position", "no_such_step"], ["correct_force_slope", "compute_tip_position"]])})
+    op = st.one_of(fit0, fit0, fit, fit, fit, rate, rate, rate, prep, mp, fitfail, prebad)
     return st.sampled_from([0, 3, 8]).flatmap(lambda m: st.lists(op, min_size=m, max_size=max_ops))
 
 
@@ -852,6 +856,15 @@ def _check_qmap(case, ctx, root, nanite):
                 if e in last_vals and last_vals[e] != new:
                     classes.add("qmap:refit-changed-values")
                 last_vals[e] = new
+        elif op["op"] == "pre_bad":
+            try:
+                idnt.apply_preprocessing(list(op["bad"]))
+            except (KeyboardInterrupt, SystemExit, MemoryError):
+                raise
+            except BaseException:  # noqa - the request is rejected
+                classes.add("qmap:preprocessing-rejected")
+                ms["fitted"], ms["rated"], ms["unknown"], ms["pre"] = False, False, False, None
+            continue
         elif op["op"] == "pre":
             pre = list(PRE[op["pre"]])
             try:
